@@ -29,13 +29,14 @@ class C07(Prop):
     translators = []
     header = 'From RP Require Import Exec.Model Exec.Oracle.'
     clauses = ['announced_once', 'handed_on_once', 'unscheduled_once', 'not_collected_and_canceled',
-               'outcome_attached', 'announced_before_handed_on', 'exit_code_truthful', 'named_examined_after_launch']
+               'outcome_attached', 'announced_before_handed_on', 'exit_code_truthful', 'named_examined_after_launch',
+               'canceled_only_if_running_when_polled']
     row_fn = 'c07_row'
     corr_name = ('Exec.Model.run (istep/cstep/wstep/tstep/kstep) vs the real Popen.work_cb/work/_launch_task/'
                  '_watch/_check_running/cancel_task/control_cb/_to_watcher under the line-granular scheduler')
     rule = ('corpus, then sampled schedules (thread weights and exit points drawn from the seed) over scenarios of '
             '1-3 tasks x {no fault, no launcher, script error, spawn error, error after spawn} x {timeout} x {process outlives the kill} x '
-            '{0-2 cancel messages}; each schedule is replayed on the real methods and completed fairly; thorough: '
+            '{0-2 cancel messages}; plus batches of 100-205 light tasks that fill the watcher\'s bulk of 100 pulls; each schedule is replayed on the real methods and completed fairly; thorough: '
             'additionally every schedule (preemption only before actions on shared state) of the 1-task scenarios and '
             'of 2-task scenarios, enumerated by the model; non-trivial = at least two threads ran a _check_lock '
             'region for the same uid, or a launch fault met a cancel request / timeout for that uid')
@@ -83,6 +84,11 @@ class C07(Prop):
             for _ in range(3 if tier == 'quick' else 20):
                 mid = [rng.choice([who, who, 'W', 'C', 'T']) for _ in range(rng.randint(6, 20))]
                 yield dict(sc, sched=pre + mid + [['X', 1, 3]] + gen_sched(rng, sc, rng.randint(0, 12)))
+        for c in X.exit_before_poll_cases(rng):
+            yield c
+        # the bulk limit of the watcher (MAX_QUEUE_BULKSIZE = 100): more than a full bulk waits in the watch queue
+        for nbig in ((100, 113) if tier == 'quick' else (100, 101, 107, 120, 130, 205)):
+            yield X.big_case(nbig, rng)
         if tier == 'thorough':
             for c in self.enumerated():
                 yield c
@@ -203,6 +209,15 @@ class C07(Prop):
     def shrink(self, case):
         s = case['sched']
         n = len(s)
+        nt = len(delivered(case))
+        if nt > 20:
+            # a big batch: cut it from the end (few, expensive candidates)
+            for keep in (nt // 2, nt - 10, nt - 1):
+                ks = set(delivered(case)[:keep])
+                yield dict(case, batches=[b2 for b2 in ([t for t in b if t['uid'] in ks] for b in case['batches']) if b2],
+                           cancels=[[v for v in m if v in ks] for m in case['cancels']],
+                           sched=[c for c in s if not (isinstance(c, list) and c[1] not in ks)])
+            return
         for k in (n // 2, n // 4, 3, 1):
             if k >= 1:
                 for i in range(0, n, k):
